@@ -16,6 +16,47 @@ type ivl struct{ Lo, Hi int64 }
 type period struct {
 	From  ivl // installed somewhere inside
 	Until ivl // expires somewhere inside (raw; Hi is widened by overlapping stalls at query time)
+	// Gone: the instant the library reported the entry deleted (its deleted callback was
+	// entered). A stalled expiry may come late, but once the removal is being reported the
+	// entry authorises nothing any more, however long the operator's callback takes.
+	Gone int64
+}
+
+func (m *Model) untilHi(p *period) int64 {
+	hi := m.widen(p.Until.Hi)
+	if p.Gone != 0 && p.Gone < hi {
+		hi = p.Gone
+	}
+	return hi
+}
+
+// GonePerm / GoneChan: a deleted event for the entry of (client 5-tuple, relay, peer) at instant e.
+// Only periods certainly installed before e are capped: an install whose handling interval
+// contains e may have come after the removal.
+func (m *Model) GonePerm(client, relayKey, ip string, e int64) {
+	for _, a := range m.Allocs[client] {
+		if a.RelayKey != relayKey {
+			continue
+		}
+		for _, p := range a.Perms[ip] {
+			if p.From.Hi < e && p.Gone == 0 {
+				p.Gone = e
+			}
+		}
+	}
+}
+
+func (m *Model) GoneChan(client, relayKey, addr string, n uint16, e int64) {
+	for _, a := range m.Allocs[client] {
+		if a.RelayKey != relayKey {
+			continue
+		}
+		for _, c := range a.Chans {
+			if c.N == n && c.Addr == addr && c.From.Hi < e && c.Gone == 0 {
+				c.Gone = e
+			}
+		}
+	}
 }
 
 type chanPeriod struct {
@@ -152,7 +193,7 @@ func (m *Model) EndAlloc(a *mAlloc, I ivl, cause string) {
 }
 
 func (m *Model) periodPossibly(a *mAlloc, p *period, t1, t2 int64) bool {
-	return p.From.Lo <= t2 && m.widen(p.Until.Hi) >= t1 && m.PossiblyAlive(a, maxI(t1, p.From.Lo), minI(t2, m.widen(p.Until.Hi)))
+	return p.From.Lo <= t2 && m.untilHi(p) >= t1 && m.PossiblyAlive(a, maxI(t1, p.From.Lo), minI(t2, m.untilHi(p)))
 }
 
 func (m *Model) periodDefinitely(a *mAlloc, p *period, t1, t2 int64) bool {
